@@ -26,6 +26,7 @@ mod exotic {
         ExoticReport::default()
     }
 }
+mod flat;
 mod gen;
 mod medium;
 mod node;
